@@ -261,7 +261,9 @@ func (d *Driver) Close() error {
 	)
 
 	d.closeOnce.Do(func() {
+		util.VerifYield("nc.close.enter")
 		d.done <- true
+		util.VerifYield("nc.close.after-done-send")
 
 		d.closeErr = d.Channel.Close()
 		if d.closeErr == nil {
